@@ -208,6 +208,7 @@ def run(res, proof):
         del c
     clear_singletons(ComplexS)
     impl = [cu.impl_op(cux, op) for op in ops]
+    cu.rerun_sample(res, 'complex_utils', ops, impl, lambda op: cu.impl_op(cux, op), rng)
     lines = ['\t'.join(op) for op in ops]
     try:
         model = core.run_driver(lines)
